@@ -13,7 +13,7 @@ RULE += ' ' + 'A further class are synthetic far pairs with a short time lag (pa
 ASSUMPTIONS = ['no reference integral is needed: the relation is between values of the implementation itself',
                'scope: every piece has h_x^2/h_t <= 32 (time halves double the aspect)']
 REQUIRED = {t: ['split:time', 'split:space', 'split:quarter', 'side:test', 'side:trial', 'side:both', 'pair:diagonal', 'pair:touching',
-                'pair:same-slab', 'pair:other-slab', 'pair:far-short-lag', 'mesh:graded-initial-grid', 'switch:exact', 'switch:quad',
+                'pair:same-slab', 'pair:other-slab', 'pair:far-short-lag', 'pair:very-short-elements', 'mesh:graded-initial-grid', 'switch:exact', 'switch:quad',
                 'curve:UnitSquare', 'curve:PiSquare', 'curve:LShape', 'curve:Circle', 'curve:UnitInterval']
             for t in ('quick', 'thorough')}
 TIMEOUT = {'quick': 900, 'thorough': 5400}
@@ -117,6 +117,27 @@ def run_shard(spec, acc):
         elems = elems + [far_dummy((lag * ht, (lag + 1) * ht), ivs[0]), far_dummy((0.0, ht), ivs[1])]
         pairs.append((len(elems) - 2, len(elems) - 1))
         acc.seen('pair:far-short-lag')
+    # synthetic near pairs of very short elements (1.2e-5 <= h_x <= 5e-5, what 15-16 space bisections of a side give): their halves
+    # are shorter than 1e-5 but far above the 1e-7 the 2-D rules accept, so every piece must still be integrated
+    for _ in range(max(4, spec['n_pairs'] // 16)):
+        pc_ = rng.randrange(len(geo.starts) - 1)
+        s0, s1 = geo.starts[pc_], geo.starts[pc_ + 1]
+        hh = (s1 - s0) * 2.0**-rng.randint(15, 16)
+        while hh < 1.2e-5:
+            hh *= 2
+        while hh > 5e-5:
+            hh /= 2
+        kk = rng.choice([0, 1, 2, 5, int((s1 - s0) / hh) - 1])
+        xa_ = (s0 + kk * hh, s0 + (kk + 1) * hh)
+        off = rng.choice([0, 1, 1, 2])
+        xb_ = (xa_[0] + off * hh, xa_[1] + off * hh)
+        if xb_[1] > s1 * (1 + 1e-15):
+            xb_ = xa_
+        ht = hh * hh / 2.0**rng.randint(0, 3)
+        lag = rng.choice([0, 0, 1])
+        elems = elems + [far_dummy((lag * ht, (lag + 1) * ht), xa_), far_dummy((0.0, ht), xb_)]
+        pairs.append((len(elems) - 2, len(elems) - 1))
+        acc.seen('pair:very-short-elements')
     for i, j in pairs:
         test, trial = elems[i], elems[j]
         if test.time_interval[1] <= trial.time_interval[0]:
